@@ -299,6 +299,14 @@ def gen_dtls():
     _, _, b_col = rs2v.find_fn(sdp, "collect_dtls_fingerprint")
     need(r"if let Some\(existing\) = current \{ if existing != &parsed \{ return Err", norm(b_col), "conflicting fingerprints rule")
     m.raw("Definition fp_conflict_rule : bool := true.", "collect_dtls_fingerprint", SDP)
+    # traversal: every session-level attribute, then every attribute of every media section, in
+    # order, nothing skipped (Model/Fingerprint.v `collect` folds over exactly that list)
+    _, _, b_df = rs2v.find_fn(sdp, "dtls_fingerprint", "SessionDescription")
+    if norm(b_df) != ("{ let mut fingerprint = None; for attr in &self.session.attributes { collect_dtls_fingerprint(attr, &mut fingerprint)?; } "
+                      "for section in &self.media_sections { for attr in &section.attributes { collect_dtls_fingerprint(attr, &mut fingerprint)?; } } "
+                      "Ok(fingerprint) }"):
+        raise Untranslatable("SessionDescription::dtls_fingerprint: traversal is not 'all session attributes, then all attributes of all media sections'")
+    m.raw("Definition fp_traversal_all_sections : bool := true.", "SessionDescription::dtls_fingerprint traversal", SDP)
     return m
 
 
